@@ -236,6 +236,8 @@ def replay0(rec):
     """Returns dict(results=[(clause, status, detail)], error=None|str)."""
     decl, probe, pred = rec['decl'], rec['probe'], rec['pred']
     res = []
+    if any(isbad(v) for xk in probe['X'] for v in xk):
+        return {'results': [('probe', 'inconclusive', 'probe construction met BAD arithmetic')], 'error': None}
     after = rec.get('sc', {}).get('when') == 'after'
     try:
         b = build(decl, after_init=after)
@@ -321,6 +323,26 @@ def replay0(rec):
         try:
             if rd['kind'] in ('msample', 'mvalue'):
                 res.extend(matrix_read(b, o, xv, rd, pr, tag)); continue
+            if rd['kind'] == 'refine':
+                fn = sample_fn(o, mx(b, rd['e']), 'integrator', refine=rd['refine'])
+                t, v = fn(xv, o.pvec)
+                t = list(np.array(t).reshape(-1)); v = list(np.array(v).reshape(-1))
+                pt, pv_ = pr['t'], pr['v']
+                if m['kind'] == 'DC':
+                    # generic probes are not dynamically feasible for collocation: the end of the last polynomial is not X[N]
+                    t, v, pt, pv_ = t[:-1], v[:-1], pt[:-1], pv_[:-1]
+                res.append((tag + ':t',) + seq_compare(t, pt))
+                res.append((tag + ':v',) + seq_compare(v, pv_))
+                continue
+            if rd['kind'] == 'sampler':
+                import casadi as ca
+                f = quiet(b.ocp.sampler, mx(b, rd['e']))
+                gist = np.array(ca.Function('g', [o.vx, o.vp], [quiet(lambda: b.ocp.gist)])(xv, o.pvec)).reshape(-1)
+                ok_t = [i for i, p in enumerate(pr['t']) if not isbad(p)]
+                tq = np.array([float(Fr(*pr['t'][i])) for i in ok_t])
+                vals = np.array(f(gist, tq)).reshape(-1)
+                res.append((tag + ':v',) + seq_compare(list(vals), [pr['v'][i] for i in ok_t]))
+                continue
             if rd['kind'] == 'value':
                 fn = value_fn(o, mx(b, rd['e']))
                 v = np.array(fn(xv, o.pvec)).reshape(-1)
